@@ -309,6 +309,7 @@ func c06Menu(thorough bool) []enga.ABlock {
 		{Restart: true},
 		{Events: []enga.Event{{Kind: "tx:approve", Var: "again"}}}, // late duplicate approval of refunded withdrawals
 		{Events: []enga.Event{{Kind: "tx:deposits", N: 2, Var: "twice-listed"}}},
+		{Events: []enga.Event{{Kind: "tx:hashes", N: 0, Var: "empty-list"}}}, // a voted batch without hashes: the tip must not move
 	}
 	m = append(m,
 		enga.ABlock{Events: []enga.Event{{Kind: "req:cancel"}}},
@@ -330,7 +331,10 @@ func c06Menu(thorough bool) []enga.ABlock {
 func c06Mutations(r *mc.Run, w *enga.World, path []enga.ABlock) {
 	ctx, _ := w.N.Ctx().CacheContext()
 	due, err := w.N.App.GoatKeeper.Dequeue(ctx)
-	must(err)
+	if err != nil {
+		r.Violate(mc.Violation{Class: "dues-cannot-be-drawn", Msg: fmt.Sprintf("the consensus layer cannot assemble what it owes the execution layer: %v | history %v", err, aPath(path)), Detail: engaDetail{Path: path}}, nil)
+		return
+	}
 	if len(due) == 0 {
 		return
 	}
